@@ -1,6 +1,6 @@
 (* C04 — Import registers exactly what is on disk, once. *)
 From Coq Require Import List NArith Bool Arith.
-From Alp Require Import Base.Str Base.Types Model.Path Model.Import Proofs.ImportProofs.
+From Alp Require Import Base.Str Base.Types Model.Path Model.Import Proofs.ImportProofs Model.Watch Proofs.WatchProofs.
 Import ListNotations.
 Local Open Scope nat_scope.
 
@@ -56,3 +56,33 @@ Example C04_example :
   let s := crun 2 {| d_acq := false; d_file := false; d_copy := None |} ex_sched in
   c_pcs s = [PDone false; PDone true] /\ d_copy (c_db s) = Some (HY, WY).
 Proof. exact example_two_importers. Qed.
+
+(* Watchdog events (RegisterFile).  What the handler hands to the importer: a created file, or the destination of a rename, whose
+   own name is not a dot-file --- whatever the file was called before (a transfer tool's temporary dot-name included); the file a
+   deleted lock file guarded; never a directory, never a dot-file destination. *)
+Theorem C04_watchdog_hands_over : forall e p, handle e = Some p ->
+  match e with
+  | Created d s => d = false /\ p = s /\ is_dotfile p = false
+  | Moved d _ q => d = false /\ p = q /\ is_dotfile p = false
+  | Deleted d s => d = false /\ is_lock_file s = true /\ p = unlock_target s
+  end.
+Proof. exact handle_spec. Qed.
+Print Assumptions C04_watchdog_hands_over.
+Theorem C04_watchdog_renamed_into_place : forall s q, is_dotfile q = false -> handle (Moved false s q) = Some q.
+Proof. exact handle_moved_any_source. Qed.
+Print Assumptions C04_watchdog_renamed_into_place.
+Theorem C04_watchdog_dot_destination : forall s q, is_dotfile q = true -> handle (Moved false s q) = None /\ handle (Created false q) = None.
+Proof. exact handle_dot_dest. Qed.
+Print Assumptions C04_watchdog_dot_destination.
+(* The lock file DefaultNodeIO.locked looks for beside d/b is d/.b.lock; the handler recognises it as a lock file (and as a dot-file,
+   so it is never imported itself), and when it is deleted the path handed to the importer is d/b again: for every directory prefix d
+   (empty or ending in '/') and every non-empty name b without '/'. *)
+Theorem C04_lock_round_trip : forall d b, dir_ok d -> b <> [] -> has_slash b = false ->
+  unlock_target (lock_of (d ++ b)) = d ++ b /\ is_lock_file (lock_of (d ++ b)) = true /\ is_dotfile (lock_of (d ++ b)) = true.
+Proof. exact unlock_lock. Qed.
+Print Assumptions C04_lock_round_trip.
+Theorem C04_lock_gone_imports_the_file : forall d b, dir_ok d -> b <> [] -> has_slash b = false -> handle (Deleted false (lock_of (d ++ b))) = Some (d ++ b).
+Proof. exact handle_lock_gone. Qed.
+Print Assumptions C04_lock_gone_imports_the_file.
+Example C04_lock_example : lock_of [97; 99; 113; 47; 102]%N = [97; 99; 113; 47; 46; 102; 46; 108; 111; 99; 107]%N /\ dir_ok [97; 99; 113; 47]%N.
+Proof. split; [reflexivity | right; exists [97; 99; 113]%N; reflexivity]. Qed.
